@@ -1,0 +1,23 @@
+//go:build verif
+
+package common
+
+import "sync/atomic"
+
+var verifPoint atomic.Pointer[func(string)]
+
+// SetVerifPoint installs (or with nil removes) the callback run by VerifPoint.
+func SetVerifPoint(f func(name string)) {
+	if f == nil {
+		verifPoint.Store(nil)
+		return
+	}
+	verifPoint.Store(&f)
+}
+
+// VerifPoint is a named instrumentation point for the verification harness.
+func VerifPoint(name string) {
+	if f := verifPoint.Load(); f != nil {
+		(*f)(name)
+	}
+}
